@@ -888,6 +888,8 @@ static int stream_check(int e, int rc)
     return ok;
 }
 
+static int last_rc, last_err;	/* result of the last do_send / do_receive / do_finish (for the event-loop driver) */
+
 static void do_send(int e, long len, long wc, int werr, int pol)
 {
     if (ep[e] == NULL)
@@ -938,6 +940,7 @@ static void do_send(int e, long len, long wc, int werr, int pol)
 	fail_len[e][nfail[e]++] = (int)blen;
     }
     settle();
+    last_rc = rc; last_err = rc < 0 ? err : 0;
     F.len = blen; F.ret = rc; F.err = rc < 0 ? err : 0; F.rty = rty;
     emit_begin("s", e);
     emit_io(e);
@@ -1015,6 +1018,7 @@ static void do_receive(int e, long cap, long rc_credit, int rerr, long wc, int w
 	}
     }
     settle();
+    last_rc = rc; last_err = rc < 0 ? err : 0;
     F.cap = cap; F.ret = rc; F.err = rc < 0 ? err : 0; F.mi = mi; F.fl = fl; F.ok = ok;
     emit_begin("r", e);
     emit_io(e);
@@ -1034,6 +1038,7 @@ static void do_finish(int e, long wc, int werr)
     shim_leave();
     unplan(e);
     settle();
+    last_rc = rc; last_err = rc < 0 ? err : 0;
     F.ret = rc; F.err = rc < 0 ? err : 0;
     emit_begin("f", e);
     emit_io(e);
@@ -1099,6 +1104,159 @@ static void do_close(int e, int rst)
     emit_begin("c", e);
     emit_noio();
     lreset();
+    emit_obs();
+    emit_end();
+}
+
+
+/* ---- event-loop driver (C04) ------------------------------------------------
+   Two applications that follow the documented protocol and trust nothing but
+   poll(xcm_fd): each declares what it waits for with xcm_await, acts only when
+   its descriptor is readable, and then calls the intended operation or
+   xcm_finish.  Every call is an ordinary trace step (validated like any other);
+   the lower layer cuts / refuses at random but fairly.  The run ends when the
+   goals are met, or when both descriptors have stayed quiet for a long time:
+   the final "q" line states what was still owed at that point. */
+static unsigned long lrng;
+static unsigned long lrand(void)
+{
+    lrng ^= lrng << 13; lrng ^= lrng >> 7; lrng ^= lrng << 17;
+    return lrng;
+}
+static long lcredit(long need)
+{
+    unsigned long x = lrand() % 100;
+    if (x < 50)
+	return -1;
+    if (x < 62)
+	return 0;
+    if (x < 85)
+	return 1 + (long)(lrand() % 8);
+    return 1 + (long)(lrand() % (unsigned long)(need > 1 ? need : 1));
+}
+
+static void do_loop(long n1, long n2, long lenclass, long seed, long closer)
+{
+    long todo[3] = { 0, n1, n2 };
+    int eof[3] = { 0, 0, 0 }, dead[3] = { 0, 0, 0 }, cond[3] = { -1, -1, -1 };
+    int quiet = 0, stuck = 0;
+    long turns = 0, qpolls = 0;
+    struct timespec t0;
+    clock_gettime(CLOCK_MONOTONIC, &t0);
+    lrng = 88172645463325252UL ^ ((unsigned long)seed * 2654435761UL) ^ ((unsigned long)xid << 20);
+    if (raw_mode)
+	return;
+    for (;;) {
+	/* declare interest */
+	for (int e = 1; e <= 2; e++) {
+	    if (ep[e] == NULL || dead[e])
+		continue;
+	    int want = (eof[e] ? 0 : XCM_SO_RECEIVABLE) | (todo[e] > 0 ? XCM_SO_SENDABLE : 0);
+	    if (want != cond[e]) {
+		do_await(e, want);
+		cond[e] = want;
+	    }
+	}
+	/* the closer closes once it has sent everything and the socket has finished its work */
+	if (closer >= 1 && closer <= 2 && ep[closer] != NULL && todo[closer] == 0 && !dead[closer]) {
+	    do_finish(closer, -1, 0);
+	    if (last_rc == 0) {
+		do_close(closer, 0);
+		cond[closer] = -1;
+	    }
+	}
+	/* goals met? */
+	bool done = true;
+	for (int e = 1; e <= 2; e++) {
+	    int p = 3 - e;
+	    if (ep[e] == NULL || dead[e])
+		continue;
+	    if (todo[e] > 0 && ep[p] != NULL && !dead[p] && !eof[e])
+		done = false;
+	    if (ep[p] != NULL && !dead[p]) {
+		if (is_stream ? stream_rd[p] < stream_len[e] : ndeliv[p] < nsent[e])
+		    done = false;
+	    }
+	    if (ep[p] == NULL && !eof[e])
+		done = false;	/* the peer has closed: this end must get to see it */
+	}
+	if (done || ++turns > 4000)
+	    break;
+	/* wait until some descriptor is readable: the only thing the applications trust */
+	struct pollfd pf[2];
+	int idx[2], n = 0;
+	for (int e = 1; e <= 2; e++)
+	    if (ep[e] != NULL && !dead[e]) {
+		pf[n].fd = xcm_fd(ep[e]);
+		pf[n].events = POLLIN;
+		pf[n].revents = 0;
+		idx[n++] = e;
+	    }
+	if (n == 0)
+	    break;
+	int pr = poll(pf, n, 25);
+	if (pr <= 0) {
+	    qpolls++;
+	    if (++quiet >= 60) {	/* 1.5 s without any readable descriptor */
+		stuck = 1;
+		break;
+	    }
+	    continue;
+	}
+	quiet = 0;
+	int first = (int)(lrand() % (unsigned long)n);
+	for (int k = 0; k < n; k++) {
+	    int j = (first + k) % n;
+	    int e = idx[j];
+	    if (!(pf[j].revents & (POLLIN | POLLERR | POLLHUP)) || ep[e] == NULL)
+		continue;
+	    /* the intended operation, or finish */
+	    int ops[3], no = 0;
+	    if (cond[e] & XCM_SO_RECEIVABLE)
+		ops[no++] = 'r';
+	    if (cond[e] & XCM_SO_SENDABLE)
+		ops[no++] = 's';
+	    ops[no++] = 'f';
+	    int op = ops[lrand() % (unsigned long)no];
+	    if (no > 1 && op == 'f' && lrand() % 3 != 0)
+		op = ops[lrand() % (unsigned long)(no - 1)];
+	    if (op == 's') {
+		long len = lenclass == 0 ? 1 + (long)(lrand() % 9)
+			 : lenclass == 1 ? 1 + (long)(lrand() % 2000)
+			 : 20000 + (long)(lrand() % 45000);
+		do_send(e, len, is_seq ? (lrand() % 4 ? -1 : 0) : lcredit(len + 8), 0, 0);
+		if (is_stream ? last_rc > 0 : last_rc == 0)
+		    todo[e]--;
+		else if (last_err != EAGAIN)
+		    dead[e] = 1;
+	    } else if (op == 'r') {
+		long cap = lrand() % 4 ? 70000 : 1 + (long)(lrand() % 50);
+		long rcr = is_seq ? (lrand() % 4 ? -1 : 0) : lcredit(80);
+		do_receive(e, cap, rcr, 0, is_seq ? -1 : lcredit(40), 0);
+		if (last_rc == 0)
+		    eof[e] = 1;
+		else if (last_rc < 0 && last_err != EAGAIN)
+		    dead[e] = 1;
+	    } else {
+		do_finish(e, is_seq ? -1 : lcredit(40), 0);
+		if (last_rc < 0 && last_err != EAGAIN)
+		    dead[e] = 1;
+	    }
+	}
+    }
+    /* what is still owed, in terms of the applications' own histories */
+    long und[3] = { 0, 0, 0 };
+    for (int e = 1; e <= 2; e++) {
+	int p = 3 - e;
+	und[e] = is_stream ? stream_len[e] - stream_rd[p] : nsent[e] - ndeliv[p];
+    }
+    stepno++;
+    struct timespec t1;
+    clock_gettime(CLOCK_MONOTONIC, &t1);
+    fprintf(out, "{\"x\":%ld,\"n\":%ld,\"op\":\"q\",\"e\":0,\"ms\":%ld,\"qp\":%ld,\"stk\":%d,\"turns\":%ld,\"und\":[%ld,%ld],\"td\":[%ld,%ld],"
+	    "\"eofs\":[%d,%d],\"alive\":[%d,%d],\"clsd\":[%d,%d],\"cnd\":[%d,%d],\"w\":0",
+	    xid, stepno, (t1.tv_sec - t0.tv_sec) * 1000 + (t1.tv_nsec - t0.tv_nsec) / 1000000, qpolls, stuck, turns, und[1], und[2], todo[1], todo[2], eof[1], eof[2],
+	    ep[1] != NULL && !dead[1], ep[2] != NULL && !dead[2], ep[1] == NULL, ep[2] == NULL, cond[1], cond[2]);
     emit_obs();
     emit_end();
 }
@@ -1249,6 +1407,7 @@ int main(int argc, char **argv)
 	case 'Z': do_smallbuf(v[0]); break;
 	case 'D': do_drain(v[0], v[1], n > 3 ? v[2] : 70000); break;
 	case 'w': do_rawwrite(n > 1 ? v[0] : -1); break;
+	case 'L': do_loop(v[0], v[1], n > 3 ? v[2] : 0, n > 4 ? v[3] : 1, n > 5 ? v[4] : 0); break;
 	default: break;
 	}
     }
